@@ -174,8 +174,9 @@ def e3(ctx):
 
 def request_params(b):
     out = []
+    from sym import param_name
     for i in range(1, b.nargs + 1):
-        nm = b.locals[i]["name"]
+        nm = param_name(b, i - 1)
         if nm in ("size", "extra") and b.locals[i]["ty"] == "u32":
             out.append(("param", i - 1, nm))
     return out
